@@ -8,6 +8,9 @@ import GoDcp.Proofs.SessionLemmasB
 * `C05_full` is refuted twice: `C05_flag_refuted` (finding F1), `C05_unmark_refuted`
   and `C05_overlap_refuted` (finding F2)
 * `C05_partial` – the clause holds for one-session runs that show neither pattern
+  (one session: no open / close / crash / setStore / rebalance; `.reopen` and `.setFlog` are inside)
+* `C05_rebalance_refuted` – a rebalance discards unsaved dirty marks like `close` does;
+  `quiet_rebalance`, `C05_partial_after_rebalance` – the history after it is a fresh one
 -/
 namespace GoDcp.C05
 open GoDcp
@@ -34,9 +37,10 @@ theorem clean_begin_no_saver (s : St) (k : Nat) (h : s.anyDirty = false) :
   | true => rw [svBegin_of_exists hk]; simp
   | false => rw [svBegin_of_clean hk h]; simp
 
-/-- ops that can raise the flag: an acknowledgement, and `Open` (latest-reset start) -/
+/-- ops that can raise the flag: an acknowledgement, `Open` (latest-reset start) and a
+    rebalance (it runs the same `checkpoint.Load` as `Open`, whose latest-reset start raises the flag) -/
 def raisesFlag : Op → Bool
-  | .ack _ | .open => true
+  | .ack _ | .open | .rebalance _ _ => true
   | _ => false
 
 theorem flag_stays_down (s : St) (op : Op) (h : s.anyDirty = false) (hop : raisesFlag op = false) :
@@ -44,6 +48,7 @@ theorem flag_stays_down (s : St) (op : Op) (h : s.anyDirty = false) (hop : raise
   cases op with
   | ack i => simp [raisesFlag] at hop
   | «open» => simp [raisesFlag] at hop
+  | rebalance lo hi => simp [raisesFlag] at hop
   | save res => simp only [step]; rw [(clean_save_no_write s res h).1]; exact h
   | svUnmark k => simp only [step, svUnmark]; (repeat' split) <;> first | rfl | exact h
   | crash => rfl
@@ -63,7 +68,8 @@ theorem save_ok_flag_down (s : St) (hl : s.lockHeld = false) : (saveAll s .ok).1
   cases ha : s.anyDirty <;> simp [hl, ha, storeSucceeds]
 
 /-- **quiescent_save_then_clean**: after a successful quiescent save, as long as no
-    acknowledgement arrives (and no new stream is opened), the flag is down, so
+    acknowledgement arrives (and no new stream is opened, neither by `Open` nor by a
+    rebalance – `raisesFlag` is true of `.ack`, `.open`, `.rebalance`), the flag is down, so
     every later save – whatever else happened: server events, persistence
     reports, reads – performs no write. -/
 theorem quiescent_save_then_clean (s : St) (ops : List Op) (res : StoreRes) (hl : s.lockHeld = false)
@@ -230,9 +236,13 @@ def needRun (need : AMap Nat) (s : St) : List Op → AMap Nat
   | [] => need
   | op :: r => needRun (needStep need s op) (step s op).1 r
 
-/-- ops of one stream session with an undisturbed store: no open / close / crash / setStore -/
+/-- ops of one stream session with an undisturbed store: no open / close / crash / setStore,
+    and no rebalance (a rebalance closes the stream and opens it again on the new range: like
+    `close` it moves to a fresh dirty generation and so discards every unsaved dirty mark).
+    A transient stream end (`.reopen`) and a failover-log change (`.setFlog`) stay inside the session:
+    they touch neither positions, dirty marks, flag, savers nor the store. -/
 def oneSession : Op → Bool
-  | .open | .close | .crash | .setStore _ _ => false
+  | .open | .close | .crash | .setStore _ _ | .rebalance _ _ => false
   | _ => true
 
 /-- this op begins a save (reads the flag): a `svBegin` with an unused saver id, or a whole save with the lock free -/
@@ -261,7 +271,8 @@ structure Quiet (s : St) : Prop where
   nodup : (AMap.keys s.offsets).Nodup
   writable : s.cfg.readOnly = false
 
-/-- **C05, first sentence, at full strength**: in every one-session history,
+/-- **C05, first sentence, at full strength**: in every one-session history (`oneSession`:
+    no open / close / crash / external store write / rebalance),
     whenever a save completes successfully, every vBucket advanced by an
     acknowledgement or a non-document event has a stored checkpoint at or beyond
     that position.  FALSE of the code: `C05_flag_refuted`, `C05_unmark_refuted`,
@@ -500,7 +511,7 @@ theorem step_inv5_settle (s : St) (need : AMap Nat) (op : Op) (h : Inv5 s need) 
   have hget := B.settle_get? s op hop
   have hcd := B.settle_mem_curDirty s op hop
   have hnd := B.offsets_nodup_step s op h.nodup
-  have hw : (step s op).1.cfg.readOnly = false := by rw [step_cfg]; exact h.writable
+  have hw : (step s op).1.cfg.readOnly = false := by rw [step_cfg_readOnly]; exact h.writable
   cases hds : dirtySettle s op with
   | none =>
     rw [needStep_of_none hds]
@@ -777,10 +788,11 @@ theorem step_inv5 (s : St) (need : AMap Nat) (op : Op) (h : Inv5 s need) (hses :
   | close => simp [oneSession] at hses
   | crash => simp [oneSession] at hses
   | setStore vb d => simp [oneSession] at hses
+  | rebalance lo hi => simp [oneSession] at hses
   | _ =>
     rw [needStep_of_none (dirtySettle_non_settle rfl)]
     exact inv5_frame h (step_offsets s (by rfl)) (step_dirtyMaps s (by rfl)) (step_curGen s (by rfl))
-      (step_store s (by rfl)) (step_savers s (by rfl)) (step_cfg s _)
+      (step_store s (by rfl)) (step_savers s (by rfl)) (step_cfg s (by rfl))
 
 theorem run_inv5 (s : St) (need : AMap Nat) (ops : List Op) (h : Inv5 s need)
     (hses : ∀ op ∈ ops, oneSession op = true) (hbad : scan unmarkBad s ops = false) :
@@ -837,7 +849,10 @@ theorem completes_curDirty (s : St) (op : Op) (hc : completes s op = true)
   | _ => simp [completes] at hc
 
 /-- **C05_partial**: in every one-session history (no open / close / crash /
-    external store write) that starts with no saver in flight and a real store,
+    external store write, and no rebalance: a rebalance discards the unsaved dirty
+    marks exactly like `close` does, see `C05_rebalance_refuted`; transient stream
+    ends `.reopen` and failover-log changes `.setFlog` are allowed) that starts
+    with no saver in flight and a real store,
     and that shows neither known-finding pattern
     (`KF.C05_flag = false`: no save begins while something is marked dirty and
     the flag is down; `KF.C05_unmark = false`: no dirty settle lands between a
@@ -875,6 +890,61 @@ theorem C05_synced (s0 : St) (ops : List Op) (hq : Quiet s0) (hses : ∀ o ∈ o
   rw [scan_append] at hunmark
   simp only [Bool.or_eq_false_iff] at hunmark
   exact run_inv5 s0 [] pre (inv5_init s0 hq) (fun o ho => hses o (List.mem_append_left _ ho)) hunmark.1
+
+/-! ## rebalance: the boundary of a `C05_partial` history -/
+
+/-- witness: an acknowledged position, then a rebalance (onto the same range) before any save -/
+def wRebal : List Op := [.ev 0 (.marker 1 10), .ev 0 (mu 1), .ack 0, .rebalance 0 0]
+
+/-- **C05_rebalance_refuted**: why `oneSession` excludes `.rebalance`.  The
+    acknowledgement marked vBucket 0 dirty at position 1 and raised the flag; the
+    rebalance (no saver in flight, so it goes through) moves to a fresh dirty
+    generation and reloads position and flag from the store – dirty list empty,
+    flag down, position back at the stored one (0).  The next save completes on
+    the skip path with nothing stored, and neither known-finding pattern occurs:
+    the body of `C05_full` fails for this history, exactly as it would with
+    `close; open` in place of the rebalance. -/
+theorem C05_rebalance_refuted :
+    let s := run s1 wRebal
+    curDirty (run s1 wRebal.dropLast) = [0] ∧ (run s1 wRebal.dropLast).anyDirty = true ∧
+    s.isOpen = true ∧ curDirty s = [] ∧ s.anyDirty = false ∧ (s.offsets.get? 0).map (·.seq) = some 0 ∧
+    completes s (.save .ok) = true ∧ needRun [] s1 (wRebal ++ [.save .ok]) = [(0, 1)] ∧
+    KF.C05_flag s1 (wRebal ++ [.save .ok]) = false ∧ KF.C05_unmark s1 (wRebal ++ [.save .ok]) = false ∧
+    ¬ Durable (step s (.save .ok)).1 (needRun [] s1 (wRebal ++ [.save .ok])) := by
+  refine ⟨by decide, by decide, by decide, by decide, by decide, by decide, by decide, by decide, by decide,
+    by decide, ?_⟩
+  intro h
+  obtain ⟨d, hd, _⟩ := h 0 1 (by decide)
+  have hn : (step (run s1 wRebal) (.save .ok)).1.store.get? 0 = none := by decide
+  rw [hn] at hd; cases hd
+
+/-- a rebalance that goes through (stream open, no saver in flight, non-empty range)
+    on a real store ends in a `Quiet` state, whatever was marked dirty before: the
+    history after it is a fresh `C05_partial` history (with an empty `need`) -/
+theorem quiet_rebalance (s : St) (lo hi : Vb) (hw : s.cfg.readOnly = false) (ho : s.isOpen = true)
+    (hs : s.savers = []) (hr : lo ≤ hi) : Quiet (step s (.rebalance lo hi)).1 := by
+  refine ⟨?_, ?_, ?_⟩
+  · simp only [step]; rw [rebalanceSession_savers]; exact hs
+  · simp only [step]
+    cases hl : load (rebalBase s lo hi) with
+    | none => rw [rebalanceSession_of_load_none ho hs hr hl]; exact List.nodup_nil
+    | some r =>
+      obtain ⟨offs, dirty, any⟩ := r
+      rw [rebalanceSession_of_load_some ho hs hr hl, rebalDone_offsets, load_keys hl]
+      exact B.vbRange_nodup _
+  · rw [step_cfg_readOnly]; exact hw
+
+/-- **C05_partial after a rebalance**: the clause holds again for the one-session
+    history that follows a completed rebalance (the settles counted are those after it) -/
+theorem C05_partial_after_rebalance (s : St) (lo hi : Vb) (pre : List Op) (op : Op)
+    (hw : s.cfg.readOnly = false) (ho : s.isOpen = true) (hs : s.savers = []) (hr : lo ≤ hi)
+    (hses : ∀ o ∈ pre ++ [op], oneSession o = true)
+    (hflag : KF.C05_flag (step s (.rebalance lo hi)).1 (pre ++ [op]) = false)
+    (hunmark : KF.C05_unmark (step s (.rebalance lo hi)).1 (pre ++ [op]) = false)
+    (hc : completes (run (step s (.rebalance lo hi)).1 pre) op = true) :
+    Durable (step (run (step s (.rebalance lo hi)).1 pre) op).1
+      (needRun [] (step s (.rebalance lo hi)).1 (pre ++ [op])) :=
+  C05_partial _ pre op (quiet_rebalance s lo hi hw ho hs hr) hses hflag hunmark hc
 
 /-- non-vacuity of `C05_partial`: acknowledgements before the flag read, between
     flag read and lock, a failing store call, a retry, a seqno-advanced event while
